@@ -192,7 +192,7 @@ def gen_value(rng, t, lenhint=None):
     if t == "boolean":
         return rng.random() < 0.5
     if "arr" in t:
-        n = lenhint if lenhint is not None else rng.choice([0, 1, 2, 2, 3, 3, 4])
+        n = lenhint if lenhint is not None else rng.choice([0, 1, 2, 2, 3, 3, 4, 2, 3, 1, rng.choice([11, 12, 13])])
         return [gen_value(rng, t["arr"]) for _ in range(n)]
     if "opt" in t:
         return None if rng.random() < 0.4 else gen_value(rng, t["opt"])
